@@ -771,6 +771,10 @@ def j_c17_none(inp):
     ms, k, twin, seed = inp
     if not ms or not wellformed(ms) or k >= len(ms):
         return None
+    # as in j_c17: two different signatures of one type on one tick and channel have no defined order
+    sigs = [(m[0], m[1], m[2]) for m in ms if m[0] in ("TIME_SIGNATURE", "KEY_SIGNATURE")]
+    if len(set(sigs)) != len(sigs):
+        return None
     try:
         a = _with_none(ms, k, twin)
         order = list(ms)
